@@ -1,4 +1,5 @@
 import Proofs.C12.Commit
+import Proofs.C12.Toy
 /-!
 # C12 — taproot outputs commit to exactly their key and script tree (DESIGN.md §3 C12)
 
@@ -10,8 +11,8 @@ Tags, the 33/32 control-block layout, the 0xFE / 1 masks and the depth cap are `
 (regenerated from the source each run); CompactSize is the translated `Gen.VarInt.serialize`.
 
 Hypotheses that are not proved here, and are named where used:
-* `L : Lawful o G`  — the operations are those of a group of prime order (property C01's business);
-* `YCongr L`        — the parity of the affine y is a function of the group element;
+* `L : Lawful o G`  — the operations are those of a group of prime order with x / y-parity / lift_x
+                      maps (that `Btc.EC.ops c` is lawful is property C01's business);
 * `Len32 H`         — digests are 32 bytes;
 * collision resistance is NOT assumed: T3 *constructs* the collision / the tweak alias.
 -/
@@ -39,7 +40,7 @@ theorem paths_fold_to_root {H : TagHash} (h32 : Len32 H) (t : Tree) (lf : LeafIn
     is a point, every leaf index: `output_pubkey` answers, `input_script_sig` answers, and
     `check_output_pubkey(output key, leaf script, control block) = True`.
     (`hQ`: the output point is not the point at infinity — an event of probability 2⁻²⁵⁶.) -/
-theorem completeness (L : Lawful o G) (hy : YCongr L) (hp : o.p ≤ 2 ^ 256) {H : TagHash} (h32 : Len32 H)
+theorem completeness (L : Lawful o G) (hp : o.p ≤ 2 ^ 256) {H : TagHash} (h32 : Len32 H)
     (sec : Bytes) (tree : Tree) (P : α) (t : Int)
     (hdepth : tree.depth ≤ 128)
     (hP : pointFromOctets o sec = .ok P)
@@ -49,12 +50,12 @@ theorem completeness (L : Lawful o G) (hy : YCongr L) (hp : o.p ≤ 2 ^ 256) {H 
     ∀ i : Nat, i < (leaves H tree).length →
       ∃ s c, inputScriptSig o H (some sec) tree i = .ok (s, c) ∧
         checkOutputPubkey o H (outKey o (tweakPoint o P t)).1 s c = .ok true :=
-  completeness_aux L hy hp h32 sec tree P t hdepth hP ht hQ
+  completeness_aux L L.y_congr hp h32 sec tree P t hdepth hP ht hQ
 
 /-- T2 (key agreement, both y parities): for `0 < d < n` and any spelling `sec` of `±d·G`, the private
     and the public tweak refuse together (exactly when `t ≥ n`), and when they answer,
     `output_prvkey · G` IS the output point: same group element, hence same x-only key and parity. -/
-theorem key_agreement (L : Lawful o G) (hy : YCongr L) {H : TagHash} (d : Int) (h0 : 0 < d) (h1 : d < o.n)
+theorem key_agreement (L : Lawful o G) {H : TagHash} (d : Int) (h0 : 0 < d) (h1 : d < o.n)
     (sec h : Bytes) (P' : α)
     (hP : pointFromOctets o sec = .ok P')
     (hsame : L.abs P' = d • L.abs o.gen ∨ L.abs P' = - (d • L.abs o.gen))
@@ -65,7 +66,7 @@ theorem key_agreement (L : Lawful o G) (hy : YCongr L) {H : TagHash} (d : Int) (
         tweakedPubkey o H sec h = .ok (outKey o (tweakPoint o P' t)) ∧
         L.abs (o.mul d2 o.gen) = L.abs (tweakPoint o P' t) ∧
         (L.abs (tweakPoint o P' t) ≠ 0 → outKey o (o.mul d2 o.gen) = outKey o (tweakPoint o P' t))) :=
-  key_agreement_aux L hy d h0 h1 sec h P' hP hsame hx
+  key_agreement_aux L L.y_congr d h0 h1 sec h P' hP hsame hx
 
 /-- T2r (a tweak out of range is refused, everywhere): `_tap_tweak` refuses exactly `t ≥ n`; then the
     public tweak, the private tweak and the control-block check all answer that same refusal. -/
@@ -152,5 +153,27 @@ example : lengthGate 1 = .ok (-1) ∧ lengthGate 0 = .error .badlen ∧ lengthGa
 example : ltBytes [1, 2] [1, 2, 0] = true ∧ ltBytes [1, 255] [2] = true ∧ ltBytes [7] [7] = false := by decide
 example : TAG_LEAF ≠ TAG_BRANCH ∧ TAG_BRANCH ≠ TAG_TWEAK := by decide
 example : (0xC1 &&& LEAF_MASK = 0xC0) ∧ (0xC1 &&& PARITY_MASK = 1) := by decide
+
+
+/-! the `Lawful` bundle is satisfiable (toy group ℤ/3, `Proofs/C12/Toy.lean`), and T1 / T2 / T3 instantiate on it:
+    internal key x = 5 spelled `02 ‖ 5`, a three-leaf tree with an odd leaf version and a duplicated leaf,
+    the all-zero "hash" (t = 0 < n = 3). -/
+def H0 : TagHash := fun _ _ => List.replicate 32 0
+def sec0 : Bytes := 2 :: beBytes 32 5
+def tree0 : Tree := .node (.leaf 0xC1 [0x51]) (.node (.leaf 0xC0 [0x52]) (.leaf 0xC0 [0x52]))
+
+example : Len32 H0 := fun _ _ => by simp [H0]
+
+example : ∃ s c, inputScriptSig Toy.ops H0 (some sec0) tree0 2 = .ok (s, c) ∧
+    checkOutputPubkey Toy.ops H0 (outKey Toy.ops (tweakPoint Toy.ops 1 0)).1 s c = .ok true :=
+  (completeness Toy.lawful (by decide) (fun _ _ => by simp [H0]) sec0 tree0 1 0 (by decide) (by decide +kernel)
+    (by decide +kernel) (by decide +kernel)).2 2 (by decide +kernel)
+
+example : ∃ t, tapTweak Toy.ops H0 (xOnly sec0) [] = .ok t ∧
+    Toy.lawful.abs (Toy.ops.mul 1 Toy.ops.gen) = Toy.lawful.abs (tweakPoint Toy.ops 1 t) := by
+  obtain ⟨t, h1, -, -, -, h2, -⟩ :=
+    (key_agreement Toy.lawful (H := H0) 1 (by decide) (by decide) sec0 [] 1 (by decide +kernel)
+      (Or.inl (by decide +kernel)) (by decide +kernel)).2 1 (by decide +kernel)
+  exact ⟨t, h1, h2⟩
 
 end Props.C12
